@@ -26,9 +26,11 @@ CONSTANTS MaxSize,          \* largest number of nodes of an enumerated expressi
           MaxArgs,          \* largest number of arguments of a call
           MaxQSize,         \* largest number of leaves of an enumerated query tree
           MaxStr,           \* longest abstract string
+          Kinds,            \* which enumerations to run: subset of {"shape", "query", "string", "tagvalue", "queryvalue"}
           ExprHeads,        \* generate calls whose function is a lambda/call and that have arguments
           GroupQueries,     \* printer brackets compound operands of & and |          (FALSE = as is)
-          GroupPipeHead,    \* printer parenthesises a pipelined call in function position (FALSE = as is)
+          GroupPipeHead,    \* printer parenthesises a pipeline in function position of a pipeline: "none" (as it was),
+                            \* "direct" (only when the function IS a pipelined call), "any" (whenever it PRINTS as one)
           LexerUnescapes,   \* string tokens understand the printer's escapes          (FALSE = as is)
           EscapeTagValues   \* tag values that do not lex as a SYMBOL are quoted       (FALSE = as is)
 
@@ -99,6 +101,13 @@ RECURSIVE ParamToks(_, _)
 ParamToks(ps, i) == IF i > Len(ps) THEN <<>>
                     ELSE <<[t |-> "sym", v |-> ps[i]]>> \o (IF i < Len(ps) THEN <<P(",")>> ELSE <<>>) \o ParamToks(ps, i + 1)
 
+\* at top level the printer drops a call without arguments, so such a call prints as whatever its function prints as
+RECURSIVE PrintsAsPipeline(_)
+PrintsAsPipeline(e) == e.k = "call" /\ (e.pipe \/ (e.args = <<>> /\ PrintsAsPipeline(e.f)))
+GroupHead(f) == CASE GroupPipeHead = "none"   -> FALSE
+                  [] GroupPipeHead = "direct" -> f.k = "call" /\ f.pipe
+                  [] GroupPipeHead = "any"    -> PrintsAsPipeline(f)
+
 RECURSIVE U(_, _), UCall(_, _, _), UParts(_, _)
 UParts(as, i) == IF i > Len(as) THEN <<>> ELSE U(as[i], FALSE) \o UParts(as, i + 1)
 UCall(f, as, top) ==
@@ -116,7 +125,7 @@ U(e, top) ==
     [] e.k = "call"   ->
          IF e.pipe
            THEN LET lhs == U(e.args[1], TRUE)
-                    rhs == IF GroupPipeHead /\ Len(e.args) = 1 /\ e.f.k = "call" /\ e.f.pipe
+                    rhs == IF Len(e.args) = 1 /\ GroupHead(e.f)
                              THEN U(e.f, FALSE)
                              ELSE UCall(e.f, Tail(e.args), TRUE)
                     j   == lhs \o <<P("|")>> \o rhs
@@ -190,16 +199,18 @@ Parse(s) == IF \E i \in DOMAIN s : s[i].t = "bad" THEN ParseError
             ELSE LET p == PPipeline(s, 1) IN IF p.ok /\ p.i = Len(s) + 1 THEN p.t ELSE ParseError
 
 \* ------------------------------------------------------------------ the allowed equivalence
-RECURSIVE Norm(_), NormSeq(_, _), NormQ(_), FlatQ(_, _, _)
+RECURSIVE Norm(_), NormSeq(_, _), NormQ(_), FlatQ(_, _, _), Unwrap(_)
 Mk(f, as) == IF as = <<>> THEN f ELSE [k |-> "call", f |-> f, args |-> as]
 NormSeq(as, i) == IF i > Len(as) THEN <<>> ELSE <<Norm(as[i])>> \o NormSeq(as, i + 1)
 FlatQ(op, qs, i) == IF i > Len(qs) THEN <<>>
                     ELSE LET c == NormQ(qs[i]) IN (IF c.k = op THEN c.qs ELSE <<c>>) \o FlatQ(op, qs, i + 1)
 NormQ(q) == IF IsCompound(q) THEN [k |-> q.k, qs |-> FlatQ(q.k, q.qs, 1)] ELSE q
+Unwrap(f) == IF f.k = "call" /\ ~f.pipe /\ f.args = <<>> THEN Unwrap(f.f) ELSE f     \* zero-argument call == function
 Norm(e) ==
   CASE e.k = "call" ->
-         IF e.pipe /\ e.f.k = "call" /\ ~e.f.pipe /\ e.f.args # <<>>
-           THEN Mk(Norm(e.f.f), NormSeq(e.args, 1) \o NormSeq(e.f.args, 1))    \* a | F rest  ==  F a rest
+         LET h == Unwrap(e.f) IN
+         IF e.pipe /\ h.k = "call" /\ ~h.pipe /\ h.args # <<>>
+           THEN Mk(Norm(h.f), NormSeq(e.args, 1) \o NormSeq(h.args, 1))        \* a | F rest  ==  F a rest
            ELSE Mk(Norm(e.f), NormSeq(e.args, 1))                              \* zero-argument call == function
     [] e.k = "lambda" -> [k |-> "lambda", params |-> e.params, body |-> Norm(e.body)]
     [] e.k = "query"  -> Qry(NormQ(e.q))
@@ -267,11 +278,11 @@ HeadOK(e) == CASE e.k = "call" ->
 \* ------------------------------------------------------------------ model checking / export
 \* One "state" per enumerated object; no transitions.  `what` selects the enumeration.
 VARIABLE obj
-Init == \/ \E t \in Shapes : obj = [what |-> "shape", t |-> t]
-        \/ \E q \in QTrees : obj = [what |-> "query", t |-> Qry(q)]
-        \/ \E s \in Strs   : obj = [what |-> "string", t |-> Str(s)]
-        \/ \E s \in Strs   : obj = [what |-> "tagvalue", t |-> Tag("#a", s)]
-        \/ \E s \in Strs   : obj = [what |-> "queryvalue", t |-> Qry(Tagged("#a", s))]
+Init == \/ "shape" \in Kinds /\ \E t \in Shapes : obj = [what |-> "shape", t |-> t]
+        \/ "query" \in Kinds /\ \E q \in QTrees : obj = [what |-> "query", t |-> Qry(q)]
+        \/ "string" \in Kinds /\ \E s \in Strs : obj = [what |-> "string", t |-> Str(s)]
+        \/ "tagvalue" \in Kinds /\ \E s \in Strs : obj = [what |-> "tagvalue", t |-> Tag("#a", s)]
+        \/ "queryvalue" \in Kinds /\ \E s \in Strs : obj = [what |-> "queryvalue", t |-> Qry(Tagged("#a", s))]
 Next == FALSE /\ UNCHANGED obj      \* no transitions: every enumerated object is an initial state
 Spec == Init /\ [][Next]_obj
 
